@@ -36,11 +36,13 @@
 (*    weak order there).                                                   *)
 (*  - the throttle (internal/pqueue, C17) is reduced to a slot counter per  *)
 (*    host: Attempt needs a free slot (Acquire), gives it back on failure  *)
-(*    and keeps it on success in resp.throttleDone until Close.  As in the *)
-(*    code, a later next() of the same Resp (resume after an early end,    *)
-(*    Seek) acquires again and overwrites throttleDone, so the earlier     *)
-(*    slot is never returned (FixLeak = FALSE); Blocked is the state where *)
-(*    Acquire can never succeed.  No context cancellation, no reqFreq      *)
+(*    and keeps it on success in resp.throttleDone until Close.  A later   *)
+(*    next() of the same Resp (resume after an early end, Seek) first      *)
+(*    returns that slot (FixLeak = TRUE, the code since commit eb4e31c).   *)
+(*    FixLeak = FALSE is the code before: the new success overwrote        *)
+(*    throttleDone and the earlier slot was never returned (finding        *)
+(*    C12-4); Blocked is the state where Acquire can never succeed.        *)
+(*    No context cancellation, no reqFreq                                  *)
 (*    rate limit, no TLS; auth is reduced to the three reactions of        *)
 (*    HandleResponse (new challenge: immediate retry; stale; unusable:     *)
 (*    drop the host);                                                      *)
@@ -64,7 +66,8 @@ CONSTANTS Hosts,      \* host names (strings)
           MaxSeeks,   \* caller budget
           PrioAsc,    \* TRUE: as the code sorts; FALSE: as documented
           Conc,       \* throttle slots per host (config.Host.ReqConcurrent)
-          FixLeak,    \* FALSE: as the code (a re-entered next() keeps the slot of the open body)
+          FixLeak,    \* TRUE: as the code since eb4e31c (next() returns the slot of the previous attempt first);
+                      \* FALSE: the behaviour before that fix (finding C12-4), kept to explain seeded/fixrev-C12-4
           Confs       \* configurations explored (chosen in Init)
 
 VARIABLES conf,   \* [R, dmax, prio : Hosts -> Nat, req : Ids -> [meth, nomir, ie, expect]]
